@@ -115,13 +115,23 @@ Module GrpP.
     | |- context [b2n (?a =? ?b)] => destruct (a =? b) eqn:?; bool_hyps; cbn in *
     end.
 
+  (* rewrite the goal only *)
+  Ltac rew_goal s :=
+    repeat match goal with
+    | H : ?l = ?r |- _ =>
+      lazymatch r with
+      | context [s] => fail
+      | _ => lazymatch l with context [s] => progress (rewrite H) end
+      end
+    end.
+
   Ltac go_fin :=
     match goal with I : Inv ?s |- _ =>
       pose_specs s; destr_inv I;
       match goal with Hpn : b2n (panic _) = 0 |- _ =>
         let Hp := fresh "Hp" in pose proof (b2n_0 _ Hpn) as Hp; try rewrite Hp in * end;
-      unf; rew_eqs s;
-      (constructor; unf; cbn in * ); rew_eqs s; cbn in *; try lia; bool_goal; try lia
+      unf; rew_eqs s; cbn in *;
+      (constructor; unf; cbn; rew_goal s; cbn; try lia; bool_goal; try lia)
     end.
   Ltac go s H I :=
     scbn H; unfold tick, toil, he_check, he_send, sync_checked in H;
